@@ -94,6 +94,18 @@ CHECKS = {
         note='preemption at source-line granularity (the quantifier of C20); CPython can also switch inside a line. Trusted: ' + TB),
 }
 
+# additions of the last wave (entry points and configuration routes as free variables of the harness)
+ADDENDA = {
+    'C01': ' A fixed set of sentences is also evaluated by the oslopolicy-checker tool (printed verdict = decision).',
+    'C03': ' The default rule is also configured through one opts.set_defaults call naming the policy file; a registered default flagged deprecated_for_removal is a definition like any other.',
+    'C06': ' Reference graphs with undefined references are also resolved by the oslopolicy-checker tool (its default rule is "default").',
+    'C08': ' The enforce_scope option is also set through opts.set_defaults; authorize is one of the entry points.',
+    'C10': ' The named histories also run with a usable default rule (Loader!DecisionsWith): names no layer defines are decided by it, by the long-lived enforcer as by a new one.',
+    'C11': ' The table also runs with the configuration supplied by one opts.set_defaults call and with nothing configured (policy.json found by the documented fallback).',
+    'C14': ' A return value that is neither True nor False (for rules made of built-in checks) is not a decision and is reported.',
+    'C19': ' A third of the runs go through the console entry point shell.main() with a command line.',
+}
+
 NOT_YET = 'check not built yet in this round (work in progress; see DESIGN.md section 4 for the plan)'
 
 
@@ -114,7 +126,7 @@ def main():
             'evidence_file': '/verif/evidence/%s.json' % pid,
             'replay_cmd_template': 'cat {path}',
             'engine': 'tlc',
-            'level_claimed': {'category': 'model_checking', 'text': c['text'], 'design_ref': c['ref']},
+            'level_claimed': {'category': 'model_checking', 'text': c['text'] + ADDENDA.get(pid, ''), 'design_ref': c['ref']},
             'level_note': c.get('note', 'bounded: exhaustive only within the stated constants; beyond them per-execution trace validation. Trusted: ' + TB),
             'technique': c['technique'],
         })
